@@ -17,6 +17,11 @@ PLAIN_FILL = ["total = 0", "drive = 'C:'  # a comment ending with a backslash: C
               "flag = not False and (1 or 2)", "x = 1\t# comment after a tab", "y = [\t1,\t2]"]
 
 
+# what may follow the failing statement on its line
+RAISE_SUFFIX = {"backslash_comment": "  # see C:\\tmp\\", "markup_comment": "  # <info>tagged</info> </b>",
+                "formfeed_comment": "  # split\x0chere", "tab_comment": "\t# after a tab", "semicolon": "; never = 1"}
+
+
 class Source(object):
     def __init__(self):
         self.lines = []       # text without newline
@@ -55,7 +60,7 @@ def gen_module(r, depth, recursion, style):
         s.add("# " + r.pick(["comment", "äöü comment", "TODO: nothing", "x" * 30]))
     if style.get("odd_separators"):
         # legal in Python source, but line boundaries for str.splitlines(): form feed, FS/GS, NEL, LS/PS
-        s.add(r.pick(["\x0c", "# page\x0cbreak", "# a\x1cb", "# unit\x1d", "# nel\x85here", "# ls\u2028ps\u2029"]), markup=True)
+        s.add(r.pick(["\x0c", "# page\x0cbreak", "# a\x1cb", "# unit\x1d", "# nel\x85here", "# ls\u2028ps\u2029"]))
     s.add("import sys")
     s.add("")
     names = ["f%d" % i for i in range(depth)]
@@ -82,10 +87,18 @@ def gen_module(r, depth, recursion, style):
                 s.add("    raise_it(")
                 s.add("        exc,")
                 s.add("    )")
+            elif style.get("raise_variant") == "continuation":
+                s.add("    raise \\")        # explicit line joining: the failing line ends with a backslash
+                s.add("        exc")
+            elif style.get("raise_variant"):
+                s.add("    raise exc" + RAISE_SUFFIX[style["raise_variant"]], markup=style["raise_variant"] == "markup_comment")
             else:
                 s.add("    raise exc")
         else:
-            if style.get("multiline_call") and r.chance(0.5):
+            if style.get("call_suffix") and not style.get("multiline_call"):
+                s.add("    return %s(exc)%s" % (names[i + 1], RAISE_SUFFIX[style["call_suffix"]]),
+                      markup=style["call_suffix"] == "markup_comment")
+            elif style.get("multiline_call") and r.chance(0.5):
                 s.add("    return %s(" % names[i + 1])
                 s.add("        exc,")
                 s.add("    )")
@@ -122,7 +135,7 @@ MESSAGES = ["boom", "", "two\nlines", "trailing newline\n", "Ünïcödé ✓ mes
             "lone < sign and > too", "escaped \\<b> tag", "percent %s {braces}", "x" * 300,
             "The \"--</error>\" option does not exist.", "<error>already styled</error>", "tab\there", "escaped \\</info> closing tag",
             "never closed <fg=chartreuse> colour", "<bg=nope>", "option <options=sparkle> unknown",
-            "<info>valid tag left open", "<comment>still open"]
+            "<info>valid tag left open", "<comment>still open", "page one\x0cpage two", "unit\x1fsep and nel\x85here"]
 
 
 def interacting_pair(r):
